@@ -26,6 +26,8 @@ CLAIMS = {
             'trusted: extractor incl. //@item, format! builders uninterpreted, derive(PartialOrd) via Kani', '§5-C18'),
     'C19': ('proof', 'Config::from_raw is proved to keep exactly the valid diagnostic codes and valid glob patterns element-wise (order preserved, other settings passed through) and is_diagnostic_disabled to be membership; lemmas: bad entries are ignored individually, settings are independent. The publish path and TOML parsing are not covered.',
             'trusted: glob::Pattern::new abstract, slice::contains / String==str / filter_map wrapper assumed', '§5-C19'),
+    'C05': ('proof', 'compute_available_fixtures (ten hash-ordered loops, the conftest walk, the final sort) is proved against avail_post: sorted by name, one entry per name, every entry is avail_pick of its name (soundness) and every visible name has an entry (completeness); resolve_fixture_for_file == op_resolve_ff; lemmas: the per-file view agrees with go-to-definition (op_resolve) whenever the file defines the name at most once and the import tests agree — the hypotheses are exactly the known findings F-05a (same-file redefinition: first vs last) and F-05b (resolve_fixture_for_file is a different resolver).',
+            'trusted: as C01 plus sort/Path specs; the handlers\' choice of resolver is a table, not proved', '§5-C05'),
     'C06': ('proof', 'analyze_file_internal is proved, for every text and every index state, to (i) keep the whole index when the text does not parse, (ii) otherwise replace exactly the analysed file\'s entries: the index is the old one with F\'s definitions/usages cleaned (exact postconditions of cleanup_definitions_for_file / cleanup_usages_for_file, proved in unit index_maint) plus what the visitors record for the current text; lemmas: under the reverse-index invariant W1 the entries of F after an analysis are exactly those of the current text whatever was there before, other files\' entries are untouched in order. The visitors are abstract (A7).',
             'trusted: extractor, sequential view, DashMap/HashSet shims, parser abstract (parse_ok/ast_of), visitors abstract (vdefs/vuses, A7)', '§5-C06'),
     'C07': ('proof', 'The memo wrappers get_available_fixtures and detect_fixture_cycles are proved to return what a recomputation returns (warm == cold) under a cache invariant, and to re-establish it; analyze_file_internal is proved to move definitions_version on every call (after fix), which is what keeps the invariant across edits. Three genuine defects found on the way were repaired (F-07a/b/c).',
